@@ -17,8 +17,8 @@ package http2
 //        (bound = 2 Pops of that urgency for the first sendable stream of either class).
 // VerifC13_history: histories from the initial state (OpenStream with/without buffered update, AdjustStream
 // in every stream state, CloseStream, pushes, Pops). VerifC13_fair: three streams opened with chosen
-// priorities and three 1-byte DATA frames each, then Pops (arbitrary windows) mixed with AdjustStream /
-// CloseStream. VerifC13_parse: parseRFC9218Priority on a symbolic field value always yields a priority the
+// priorities and three frames each (one stream: 1-byte DATA, blocked or not at every Pop), then Pops mixed
+// with AdjustStream / CloseStream. VerifC13_parse: parseRFC9218Priority on a symbolic field value always yields a priority the
 // scheduler can index with (u <= 7, i <= 1), and the scheduler accepts it.
 //
 // Sensitivity (sh mut.sh ... C13): see the end of this file.
@@ -121,7 +121,8 @@ func (c *c13state) onPop(si int, control bool, pre []c12pre) {
 	// (1) urgency order
 	for t := range pre {
 		if t != si && pre[t].queued && c.prio[t].urgency < u {
-			m.assert(vfNot(c13sendable(pre[t])), "stream frame comes out while a stream with a smaller urgency value has a sendable frame")
+			// (the scheduler looked at t first, so its window is decided on this path: no case split)
+			m.assert(!vfConcretizeBool(c13sendable(pre[t])), "stream frame comes out while a stream with a smaller urgency value has a sendable frame")
 			c.seen.preempt = true
 		}
 	}
@@ -212,8 +213,12 @@ func c13prios() []PriorityParam {
 
 // histories from the initial state
 func VerifC13_history() {
-	cfg := c12cfg{kind: c12RFC9218, nstreams: 3, k: c12k(4, 5), dataLens: []int{1}, adjust: 2, maxClose: 1, inOrder: true, det: true,
-		noCtl: true, noHdr: true, boolWin: true, prios: c13prios()[:3]}
+	// two priorities that differ in urgency and class: {u=3 i=0, u=1 i=1} (thorough adds u=3 i=1)
+	cfg := c12cfg{kind: c12RFC9218, nstreams: 3, k: 5, dataLens: []int{1}, adjust: 1, maxClose: 1, inOrder: true, det: true,
+		noCtl: true, noHdr: true, boolWin: true, prios: []PriorityParam{{urgency: 3, incremental: 0}, {urgency: 1, incremental: 1}}}
+	if vfTier() > 0 {
+		cfg.prios = append(cfg.prios, PriorityParam{urgency: 3, incremental: 1})
+	}
 	m := c12new(cfg, newPriorityWriteSchedulerRFC9218())
 	c := c13attach(m)
 	for step := 0; step < m.k; step++ {
@@ -224,20 +229,36 @@ func VerifC13_history() {
 	if c.seen.buffered {
 		vfReach("priority-update-before-open")
 	}
+	if c.seen.preempt {
+		vfReach("lower-urgency-value-first")
+	}
 	m.reachPops()
 	m.reachCommon()
 }
 
-// fairness from a loaded state: 3 open streams with chosen priorities, 3 DATA frames each
+// fairness from a loaded state: 3 open streams with chosen priorities, 3 frames each
 func VerifC13_fair() {
-	cfg := c12cfg{kind: c12RFC9218, nstreams: 3, k: c12k(4, 5), dataLens: nil, adjust: 1, maxClose: 1, inOrder: true, det: true,
+	cfg := c12cfg{kind: c12RFC9218, nstreams: 3, k: 5, dataLens: nil, adjust: 1, maxClose: vfTier(), inOrder: true, det: true,
 		noCtl: true, noHdr: true, boolWin: true, oneReorg: true, prios: c13prios()}
 	m := c12new(cfg, newPriorityWriteSchedulerRFC9218())
 	c := c13attach(m)
+	// Streams are interchangeable and streams of different classes live in different rings, so only the
+	// multiset of priorities matters: they are chosen in non-decreasing order of their index in prios.
+	p := 0
 	for i := range m.ss {
-		m.do(c12op{c12OpOpen, i, vfChoice("prio", len(m.prios))})
+		p += vfChoice("prio", len(m.prios)-p)
+		m.do(c12op{c12OpOpen, i, p})
+	}
+	// One stream (any of the three) has 1-byte DATA frames, i.e. is sendable or not at every Pop as its window
+	// says; the other two have frames that need no window (HEADERS-like / empty DATA) and are always sendable.
+	blockable := vfChoice("blockable-stream", len(m.ss))
+	for i := range m.ss {
 		for j := 0; j < 3; j++ {
-			m.do(c12op{c12OpData, i, 1})
+			if i == blockable {
+				m.do(c12op{c12OpData, i, 1})
+			} else {
+				m.do(c12op{c12OpHdr, i, 0})
+			}
 		}
 	}
 	for step := 0; step < m.k; step++ {
